@@ -977,4 +977,105 @@ example : WFNak ⟨⟨⟨0, 0, 9, ⟨⟨1, 0⟩, ⟨1, 0⟩, ⟨1, 0⟩, 0, 0, 0
 example : ¬ fits 4 4294967296 := by decide
 example : ¬ fits 8 (-1) := by decide
 
+/-! ## Injectivity of the four encodings (`C06_*_pack_injective`) -/
+
+/-- **the Ack encoding is injective on the domain**: two valid PDUs with the same octets are the same
+    PDU (corollary of `C06_ack_roundtrip`) -/
+theorem C06_ack_pack_injective (a b : Ack) (wa : WFAck a) (wb : WFAck b)
+    (h : Spec.ack a = Spec.ack b) : a = b := by
+  have r1 := C06_ack_roundtrip a wa []
+  have r2 := C06_ack_roundtrip b wb []
+  simp only [List.append_nil] at r1 r2
+  rw [h, r2] at r1
+  exact (Except.ok.inj r1).symm
+
+/-- the same for the library's `pack()`, as an iff: valid Ack PDUs are equal exactly when they pack to
+    the same octets -/
+theorem C06_ack_pack_eq_iff (a b : Ack) (wa : WFAck a) (wb : WFAck b) : a.pack = b.pack ↔ a = b := by
+  constructor
+  · intro h
+    rw [C06_ack_pack_exact a wa, C06_ack_pack_exact b wb] at h
+    exact C06_ack_pack_injective a b wa wb (Except.ok.inj h)
+  · rintro rfl; rfl
+
+-- non-vacuity: two distinct valid Ack PDUs (they differ in the transaction status only) with different octets
+example : WFAck exAck ∧ WFAck { exAck with status := 3 } ∧ Spec.ack exAck ≠ Spec.ack { exAck with status := 3 } := by
+  have w1 : WFAck exAck := by decide
+  have w2 : WFAck { exAck with status := 3 } := by decide
+  exact ⟨w1, w2, fun h => absurd (C06_ack_pack_injective _ _ w1 w2 h) (by decide)⟩
+
+/-- **the Prompt encoding is injective on the domain**: two valid PDUs with the same octets are the same
+    PDU (corollary of `C06_prompt_roundtrip`) -/
+theorem C06_prompt_pack_injective (a b : Prompt) (wa : WFPrompt a) (wb : WFPrompt b)
+    (h : Spec.prompt a = Spec.prompt b) : a = b := by
+  have r1 := C06_prompt_roundtrip a wa []
+  have r2 := C06_prompt_roundtrip b wb []
+  simp only [List.append_nil] at r1 r2
+  rw [h, r2] at r1
+  exact (Except.ok.inj r1).symm
+
+/-- the same for the library's `pack()`, as an iff: valid Prompt PDUs are equal exactly when they pack to
+    the same octets -/
+theorem C06_prompt_pack_eq_iff (a b : Prompt) (wa : WFPrompt a) (wb : WFPrompt b) : a.pack = b.pack ↔ a = b := by
+  constructor
+  · intro h
+    rw [C06_prompt_pack_exact a wa, C06_prompt_pack_exact b wb] at h
+    exact C06_prompt_pack_injective a b wa wb (Except.ok.inj h)
+  · rintro rfl; rfl
+
+-- non-vacuity: two distinct valid Prompt PDUs (they differ in the response-required bit only) with different octets
+example : WFPrompt exPrompt ∧ WFPrompt { exPrompt with respReq := 0 } ∧ Spec.prompt exPrompt ≠ Spec.prompt { exPrompt with respReq := 0 } := by
+  have w1 : WFPrompt exPrompt := by decide
+  have w2 : WFPrompt { exPrompt with respReq := 0 } := by decide
+  exact ⟨w1, w2, fun h => absurd (C06_prompt_pack_injective _ _ w1 w2 h) (by decide)⟩
+
+/-- **the Keep Alive encoding is injective on the domain**: two valid PDUs with the same octets are the same
+    PDU (corollary of `C06_keepalive_roundtrip`) -/
+theorem C06_keepalive_pack_injective (a b : KeepAlive) (wa : WFKeepAlive a) (wb : WFKeepAlive b)
+    (h : Spec.keepAlive a = Spec.keepAlive b) : a = b := by
+  have r1 := C06_keepalive_roundtrip a wa []
+  have r2 := C06_keepalive_roundtrip b wb []
+  simp only [List.append_nil] at r1 r2
+  rw [h, r2] at r1
+  exact (Except.ok.inj r1).symm
+
+/-- the same for the library's `pack()`, as an iff: valid Keep Alive PDUs are equal exactly when they pack to
+    the same octets -/
+theorem C06_keepalive_pack_eq_iff (a b : KeepAlive) (wa : WFKeepAlive a) (wb : WFKeepAlive b) : a.pack = b.pack ↔ a = b := by
+  constructor
+  · intro h
+    rw [C06_keepalive_pack_exact a wa, C06_keepalive_pack_exact b wb] at h
+    exact C06_keepalive_pack_injective a b wa wb (Except.ok.inj h)
+  · rintro rfl; rfl
+
+-- non-vacuity: two distinct valid Keep Alive PDUs (they differ in the last progress octet only) with different octets
+example : WFKeepAlive exKa ∧ WFKeepAlive { exKa with progress := 0x0102030405060709 } ∧ Spec.keepAlive exKa ≠ Spec.keepAlive { exKa with progress := 0x0102030405060709 } := by
+  have w1 : WFKeepAlive exKa := by decide
+  have w2 : WFKeepAlive { exKa with progress := 0x0102030405060709 } := by decide
+  exact ⟨w1, w2, fun h => absurd (C06_keepalive_pack_injective _ _ w1 w2 h) (by decide)⟩
+
+/-- **the Nak encoding is injective on the domain**: two valid PDUs with the same octets are the same
+    PDU (corollary of `C06_nak_roundtrip`) -/
+theorem C06_nak_pack_injective (a b : Nak) (wa : WFNak a) (wb : WFNak b)
+    (h : Spec.nak a = Spec.nak b) : a = b := by
+  have r1 := C06_nak_roundtrip a wa
+  have r2 := C06_nak_roundtrip b wb
+  rw [h, r2] at r1
+  exact (Except.ok.inj r1).symm
+
+/-- the same for the library's `pack()`, as an iff: valid Nak PDUs are equal exactly when they pack to
+    the same octets -/
+theorem C06_nak_pack_eq_iff (a b : Nak) (wa : WFNak a) (wb : WFNak b) : a.pack = b.pack ↔ a = b := by
+  constructor
+  · intro h
+    rw [C06_nak_pack_exact a wa, C06_nak_pack_exact b wb] at h
+    exact C06_nak_pack_injective a b wa wb (Except.ok.inj h)
+  · rintro rfl; rfl
+
+-- non-vacuity: two distinct valid Nak PDUs (they differ in the last octet of the last segment request only) with different octets
+example : WFNak exNak ∧ WFNak { exNak with segs := [(0, 0), (0x1112131415161718, 0x2122232425262729)] } ∧ Spec.nak exNak ≠ Spec.nak { exNak with segs := [(0, 0), (0x1112131415161718, 0x2122232425262729)] } := by
+  have w1 : WFNak exNak := by decide
+  have w2 : WFNak { exNak with segs := [(0, 0), (0x1112131415161718, 0x2122232425262729)] } := by decide
+  exact ⟨w1, w2, fun h => absurd (C06_nak_pack_injective _ _ w1 w2 h) (by decide)⟩
+
 end SpVerif.Props.C06Fixed
